@@ -48,7 +48,7 @@ def gen_one(r, i, tier):
         elif c < 0.70:
             ops.append(("iadd", r.randrange(npool), r.randrange(npool)))
         elif c < 0.78 and npool < 7:
-            ops.append(("mul", r.randrange(npool), r.choice([0.5, 2.0, 0.0]))); npool += 1
+            ops.append(("mul", r.randrange(npool), r.choice([0.5, 2.0, 0.0, 1.0, 1.0]))); npool += 1
         elif c < 0.86 and npool < 7:
             ops.append(("copy", r.randrange(npool))); npool += 1
         elif c < 0.92 and npool < 7:
